@@ -522,6 +522,81 @@ func checkBasicKind(w *World, r *Result) {
 		r.cond(known && got == want, "AGR-C12n", fi.Name, "types."+flag+" -> "+got, w.Pos(ret.Pos()), "flag and kind of the same name", "the go/types flag "+flag+" is mapped to "+got+" (expected "+want+")")
 		return true
 	})
+	// table form: `for _, row := range table { if info&row.flag != 0 { return row.kind, true } }` over a read-only
+	// package-level table of {flag, kind} rows
+	ast.Inspect(fi.Decl.Body, func(x ast.Node) bool {
+		rs, ok := x.(*ast.RangeStmt)
+		if !ok || identOf(rs.Value) == nil {
+			return true
+		}
+		t := pkgTable(w, info, rs.X)
+		if t == nil {
+			return true
+		}
+		row := objOf(info, identOf(rs.Value))
+		fieldOf := func(e ast.Expr) string { // row.<field>
+			var name string
+			ast.Inspect(e, func(y ast.Node) bool {
+				if sel, ok := y.(*ast.SelectorExpr); ok {
+					if id := identOf(sel.X); id != nil && objOf(info, id) == row {
+						name = sel.Sel.Name
+					}
+				}
+				return true
+			})
+			return name
+		}
+		ast.Inspect(rs.Body, func(y ast.Node) bool {
+			ret, ok := y.(*ast.ReturnStmt)
+			if !ok || len(ret.Results) < 1 {
+				return true
+			}
+			kindField := fieldOf(ret.Results[0])
+			flagField := ""
+			for _, c := range pathConds(fi.Decl, ret) {
+				be, isBin := ast.Unparen(c.expr).(*ast.BinaryExpr)
+				if !isBin || (be.Op != token.NEQ && be.Op != token.EQL) || (be.Op == token.NEQ) != c.truth {
+					continue
+				}
+				if f := fieldOf(c.expr); f != "" {
+					flagField = f
+				}
+			}
+			if kindField == "" || flagField == "" {
+				return true
+			}
+			for _, en := range t.entries {
+				lit, ok := ast.Unparen(en.val).(*ast.CompositeLit)
+				if !ok {
+					continue
+				}
+				st, ok := t.info.TypeOf(lit).Underlying().(*types.Struct)
+				if !ok {
+					continue
+				}
+				vals := map[string]ast.Expr{}
+				for i, el := range lit.Elts {
+					if kv, ok := el.(*ast.KeyValueExpr); ok {
+						vals[es(kv.Key)] = kv.Value
+					} else if i < st.NumFields() {
+						vals[st.Field(i).Name()] = el
+					}
+				}
+				fe, ke := vals[flagField], vals[kindField]
+				if fe == nil || ke == nil {
+					continue
+				}
+				flag := es(fe)
+				flag = flag[strings.LastIndex(flag, ".")+1:]
+				got := es(ke)
+				n++
+				want, known := pairs[flag]
+				r.cond(known && got == want, "AGR-C12n", fi.Name, "types."+flag+" -> "+got, w.Pos(fe.Pos()), "flag and kind of the same name (row of the lookup table)", "the go/types flag "+flag+" is mapped to "+got+" (expected "+want+")")
+			}
+			return true
+		})
+		return true
+	})
 	if n < 4 {
 		Undecided("NewBasicKind: only %d flag branches recognised", n)
 	}
